@@ -7,6 +7,8 @@
 (*     "MM" MetaMessage('set_tempo'):          x = tempo                   *)
 (*     "SS" MetaMessage('sequencer_specific'): x stands for data (x,)      *)
 (*     "UM" UnknownMetaMessage(0x60):          x stands for data (x,)      *)
+(*     "RT" Message('clock'), a real-time message: no attribute but time   *)
+(*          (x is a constant placeholder; every x override is rejected)    *)
 (* x ranges over {1, 2} and the out-of-range value Bad; UnknownMetaMessage *)
 (* validates nothing, so Bad is a legal value there - which is exactly     *)
 (* what constructing the class afresh with that value does.                *)
@@ -23,7 +25,7 @@ Obj(c, f, x, t) == [cls |-> c, frozen |-> f, x |-> x, time |-> t]
 VARIABLES heap, hist
 vars == <<heap, hist>>
 
-ValidX(c, v) == v \in {1, 2} \/ (c = "UM" /\ v = Bad)
+ValidX(c, v) == c # "RT" /\ (v \in {1, 2} \/ (c = "UM" /\ v = Bad))
 Full == Len(heap) >= MaxObjs
 
 Step(op, i, j, attr, v, ok, newid) ==
@@ -35,6 +37,7 @@ Init == heap = <<>> /\ hist = <<>>
 
 New == /\ ~Full
        /\ \E c \in Classes, x \in {1, 2}, t \in {0, 5} :
+            /\ (c = "RT" => x = 1)
             /\ heap' = Append(heap, Obj(c, FALSE, x, t))
             /\ Record(Step("new", 0, 0, "", 0, TRUE, Len(heap) + 1))
 
@@ -81,11 +84,19 @@ HashEq == \E i, j \in DOMAIN heap :
             /\ heap' = heap
             /\ Record(Step("hash", i, j, "", 0, SameValue(heap[i], heap[j]), 0))
 
+\* a frozen message and a freshly frozen one with the same values, the time
+\* given as a float in one and an int in the other (5 = 5.0): equal, so they
+\* must hash equal and find each other as dictionary keys
+HashVariant == \E i \in DOMAIN heap :
+                 /\ heap[i].frozen /\ heap[i].x # Bad
+                 /\ heap' = heap
+                 /\ Record(Step("hashf", i, 0, "", 0, TRUE, 0))
+
 NoneMaps == /\ heap' = heap
             /\ \E op \in {"freeze_none", "thaw_none"} : Record(Step(op, 0, 0, "", 0, TRUE, 0))
 
 Next == /\ Len(hist) < MaxOps
-        /\ (New \/ Copy \/ Freeze \/ Thaw \/ SetAttr \/ HashEq \/ NoneMaps)
+        /\ (New \/ Copy \/ Freeze \/ Thaw \/ SetAttr \/ HashEq \/ HashVariant \/ NoneMaps)
 Spec == Init /\ [][Next]_vars
 
 \* ---- properties ----
@@ -100,11 +111,11 @@ FrozenRejectsMutation ==
         ~(IF n = 1 THEN FALSE ELSE hist[n-1].heap[hist[n].i].frozen)
 FrozenNeverChanges ==
   [][\A k \in DOMAIN heap : heap[k].frozen => heap'[k] = heap[k]]_vars
-AllValidOrUnknown == \A k \in DOMAIN heap : ValidX(heap[k].cls, heap[k].x)
+AllValidOrUnknown == \A k \in DOMAIN heap : heap[k].cls = "RT" \/ ValidX(heap[k].cls, heap[k].x)
 
-ClsCode(c) == CASE c = "M" -> 1 [] c = "MM" -> 2 [] c = "SS" -> 3 [] c = "UM" -> 4
+ClsCode(c) == CASE c = "M" -> 1 [] c = "MM" -> 2 [] c = "SS" -> 3 [] c = "UM" -> 4 [] c = "RT" -> 5
 OpCode(o) == CASE o = "new" -> 1 [] o = "copy" -> 2 [] o = "freeze" -> 3 [] o = "thaw" -> 4
-               [] o = "setattr" -> 5 [] o = "hash" -> 6 [] o = "freeze_none" -> 7 [] o = "thaw_none" -> 8
+               [] o = "setattr" -> 5 [] o = "hash" -> 6 [] o = "freeze_none" -> 7 [] o = "thaw_none" -> 8 [] o = "hashf" -> 9
 HeapFlat(h) == <<Len(h)>> \o [k \in 1..(4 * Len(h)) |->
                   LET o == h[((k - 1) \div 4) + 1] IN
                   CASE (k - 1) % 4 = 0 -> ClsCode(o.cls) [] (k - 1) % 4 = 1 -> (IF o.frozen THEN 1 ELSE 0)
